@@ -106,7 +106,7 @@ def run(rep, tier):
     rep.rule("C03.R5", "K2: operation state released/reset before the downstream completion that may destroy it")
     rep.rule("C03.R7", "K6 (keep-alive across a self-destroying call): split/split_tuple/ensure_started receivers call shared_state::set_predecessor_done() - which resets the "
              "predecessor operation state and thereby destroys the calling receiver - only through a local that was moved from *this, so that a reference to the shared state outlives the call")
-    rep.rule("C03.R6", "K9: operation states immovable; completion members &&-qualified and noexcept")
+    rep.rule("C03.R6", "K9: operation states immovable; completion members &&-qualified and noexcept; drop_operation_state forwards decayed copies; split/split_tuple hand their one stored error (split: also the values) to every consumer as const lvalue references (compile-time witnesses)")
 
     F = facts(rep, driver("c03_algos.cpp"), [r"^pika::\w+_detail::", r"^pika::when_all_impl::", r"^pika::execution::experimental::detail::"])
     C = Completions(F)
